@@ -241,8 +241,8 @@ class Check:
         for gname, members in groups.items():
             rp = os.path.join(REPLAY, '%s_%s.json' % (pid, re.sub(r'[^A-Za-z0-9_.#@-]', '_', gname)))
             replayed, used = None, members[0]
-            if members[0][3] == 'native-contract-run':
-                replayed = members[0][1]
+            if members[0][2] is None and isinstance(members[0][1], dict) and 'reproduced' in members[0][1]:
+                replayed = members[0][1]      # externally decided obligation that carries its own replay
             for (name, model, ob, backend, reason) in members[:4]:
                 rep = ob.meta.get('replayer') if ob is not None else None
                 if not rep:
